@@ -106,3 +106,141 @@ example : chunkStep (le64 123 32 123 125 97 123 0 255) 2 = some 4 := by decide
 example : chunkStep (le64 123 32 123 125 97 123 0 255) 1 = none := by decide
 
 end Jomini.TextReader
+
+namespace Jomini.TextReader
+open Jomini Jomini.TextReader.Spec Jomini.TextReader.Swar
+
+theorem drop_cons_info {w : Bytes} {ptr : Nat} {c : UInt8} {tl : Bytes} (h : w.drop ptr = c :: tl) :
+    w[ptr]? = some c ∧ w.drop (ptr + 1) = tl ∧ w.length = ptr + 1 + tl.length := by
+  have hl := congrArg List.length h
+  simp at hl
+  refine ⟨?_, ?_, by omega⟩
+  · have : (w.drop ptr)[0]? = some c := by rw [h]; rfl
+    rw [List.getElem?_drop] at this
+    simpa using this
+  · have : w.drop (ptr + 1) = (w.drop ptr).drop 1 := by rw [List.drop_drop]
+    rw [this, h]; rfl
+
+theorem skipRef_quote_other {c : UInt8} {tl : Bytes} {depth : Int} {ptr : Nat} (hc : ¬(c == 92) = true) :
+    skipRef (c :: tl) .quote depth ptr =
+      if c != 34 then skipRef tl .quote depth (ptr + 1) else skipRef tl .none depth (ptr + 1) := by
+  rcases tl with _ | ⟨x, _ | ⟨d, r⟩⟩ <;> simp [skipRef, hc]
+
+/-- walking plain bytes one at a time from `depth` -/
+theorem skipRef_plain (l : Bytes) : ∀ (rest : Bytes) (depth d' : Int) (ptr : Nat), plainBytes l →
+    depthAfter l depth = some d' →
+    skipRef (l ++ rest) .none depth ptr = skipRef rest .none d' (ptr + l.length) := by
+  induction l with
+  | nil => intro rest depth d' ptr _ h; simp [depthAfter] at h; subst h; simp
+  | cons c l ih =>
+    intro rest depth d' ptr hp h
+    have hc := hp c (by simp)
+    have hp' : plainBytes l := fun x hx => hp x (by simp [hx])
+    simp only [depthAfter] at h
+    simp only [List.cons_append, skipRef, hc.1, hc.2, Bool.false_eq_true, if_false, List.length_cons]
+    have e : ptr + (l.length + 1) = ptr + 1 + l.length := by omega
+    split at h
+    · rename_i h1; simp only [h1, if_true]; rw [e]; exact ih rest _ _ _ hp' h
+    · rename_i h1
+      simp only [h1, Bool.false_eq_true, if_false]
+      split at h
+      · rename_i h2
+        simp only [h2, if_true]
+        split at h
+        · simp at h
+        · rename_i h3; simp only [h3, Bool.false_eq_true, if_false]; rw [e]; exact ih rest _ _ _ hp' h
+      · rename_i h2; simp only [h2, Bool.false_eq_true, if_false]; rw [e]; exact ih rest _ _ _ hp' h
+
+/-- **the SWAR loop of `skip_container` is unobservable**: on every window, from every state, depth and position,
+the model's scan with the 8-bytes-at-a-time path computes exactly what the purely bytewise reference computes
+(same stopping point, same state and depth handed to the refill). -/
+theorem C09_skipScan_eq_bytewise (w : Bytes) : ∀ (fuel : Nat) (st : SkipSt) (depth : Int) (ptr : Nat),
+    ptr ≤ w.length → w.length - ptr + 1 ≤ fuel →
+    skipScan w fuel st depth ptr = skipRef (w.drop ptr) st depth ptr := by
+  intro fuel
+  induction fuel with
+  | zero => intro st depth ptr _ h; omega
+  | succ f ih =>
+    intro st depth ptr hp hf
+    cases hd : w.drop ptr with
+    | nil =>
+      have hlen : ptr = w.length := by
+        have := congrArg List.length hd; simp at this; omega
+      subst hlen
+      cases st with
+      | none => simp [skipScan, skipRef]
+      | quote => simp [skipScan, skipRef]
+      | comment => simp [skipScan, skipRef]
+    | cons c tl =>
+      obtain ⟨hget, htl, hlen⟩ := drop_cons_info hd
+      have hne : ¬ (ptr == w.length) = true := by simp; omega
+      have ih1 : ∀ st' depth', skipScan w f st' depth' (ptr + 1) = skipRef tl st' depth' (ptr + 1) := by
+        intro st' depth'
+        rw [ih st' depth' (ptr + 1) (by omega) (by omega), htl]
+      cases st with
+      | comment =>
+        rw [skipScan]
+        simp only [hne, Bool.false_eq_true, if_false, hget, skipRef]
+        split <;> exact ih1 _ _
+      | quote =>
+        rw [skipScan]
+        simp only [hne, Bool.false_eq_true, if_false, hget]
+        by_cases hc : (c == 92) = true
+        · simp only [hc, if_true]
+          rcases tl with _ | ⟨x, _ | ⟨d, r'⟩⟩
+          · have : w.length - ptr ≤ 2 := by simp at hlen; omega
+            simp [this, skipRef, hc]
+          · have : w.length - ptr ≤ 2 := by simp at hlen; omega
+            simp [this, skipRef, hc]
+          · have : ¬ w.length - ptr ≤ 2 := by simp at hlen; omega
+            simp only [this, if_false, skipRef, hc, if_true]
+            rw [ih .quote depth (ptr + 2) (by simp at hlen; omega) (by omega)]
+            have : w.drop (ptr + 2) = d :: r' := by
+              have : w.drop (ptr + 2) = (w.drop (ptr + 1)).drop 1 := by rw [List.drop_drop]
+              rw [this, htl]; rfl
+            rw [this]
+        · simp only [hc, Bool.false_eq_true, if_false]
+          rw [skipRef_quote_other hc]
+          split <;> exact ih1 _ _
+      | none =>
+        -- the byte step, common to both branches
+        have hbyte : (if (ptr == w.length) = true then SkipScan.refill .none depth ptr
+            else
+              match w[ptr]? with
+              | none => SkipScan.ub
+              | some val =>
+                if val == 123 then skipScan w f .none (depth + 1) (ptr + 1)
+                else if val == 125 then
+                  if depth - 1 == 0 then .done (ptr + 1) else skipScan w f .none (depth - 1) (ptr + 1)
+                else if val == 34 then skipScan w f .quote depth (ptr + 1)
+                else if val == 35 then skipScan w f .comment depth (ptr + 1)
+                else skipScan w f .none depth (ptr + 1)) = skipRef (c :: tl) .none depth ptr := by
+          simp only [hne, Bool.false_eq_true, if_false, hget, skipRef, ih1]
+        rw [skipScan]
+        by_cases hbig : w.length - ptr > 8
+        · simp only [hbig, if_true]
+          have hsome : (read64 w ptr).isSome = true := by
+            unfold read64; rw [word8_isSome_iff]; simp; omega
+          cases hr : read64 w ptr with
+          | none => rw [hr] at hsome; simp at hsome
+          | some data =>
+            simp only [Option.map_some]
+            cases hcs : chunkStep data depth with
+            | none => simp only; exact hbyte
+            | some d' =>
+              simp only
+              unfold read64 at hr
+              obtain ⟨b0, b1, b2, b3, b4, b5, b6, b7, rest, hw, hdata⟩ := word8_some hr
+              subst hdata
+              obtain ⟨hplain, hdep⟩ := C09_chunk_eq_bytes b0 b1 b2 b3 b4 b5 b6 b7 depth d' hcs
+              rw [ih .none d' (ptr + 8) (by omega) (by omega)]
+              have hrest : w.drop (ptr + 8) = rest := by
+                have : w.drop (ptr + 8) = (w.drop ptr).drop 8 := by rw [List.drop_drop]
+                rw [this, hw]; rfl
+              rw [hrest, ← hd, hw]
+              have := skipRef_plain [b0, b1, b2, b3, b4, b5, b6, b7] rest depth d' ptr hplain hdep
+              simpa using this.symm
+        · simp only [hbig, if_false]
+          exact hbyte
+
+end Jomini.TextReader
